@@ -430,7 +430,7 @@ def _temporaries(ctx, P):
 
 def _text_level(ctx, P):
     """R13.2: signature text built from real axis names, with adversarial names."""
-    from .c15 import re_models
+    from .c15 import match_method_models, re_models
 
     fi = P.func("grid_ufunc:_parse_signature_from_string")
     names = ["t", "e", "r", "n", "c", "l", "i", "o", "u", "g", "h", "X", "x", "left", "Left", "LEFT", "leftover", "xcenter", "center_x", "inner1", "outerspace", "righteous", "ce", "cen", "rightleft", "a1", "_", "depth"]
@@ -439,7 +439,7 @@ def _text_level(ctx, P):
     for nm in names:
         for other in (nm, names[(names.index(nm) + 7) % len(names)]):
             text = f"({nm}:center,{other}:left)->({other}:outer)"
-            ev = Evaluator(P, models=re_models())
+            ev = Evaluator(P, models=re_models(), method_models=match_method_models())
             try:
                 outs = ev.run_paths(fi, lambda: dict(signature=text))
             except Unmodelled as e:
